@@ -2778,11 +2778,22 @@ def k22f_solution_written_unfiltered(core, rep):
     src = [x for x in ast.walk(f.node) if isinstance(x, ast.Assign) and any(isinstance(t_, ast.Name) and t_.id == sol for t_ in x.targets)]
     from_solver = len(src) == 1 and isinstance(src[0].value, ast.Call) and call_name(src[0].value) == 'solution'
     rep.ob('K22f', 'written-solution-is-the-solvers', from_solver, 'the object written as the solution is not exactly what Solver.solution() returned', _w(f))
+    consts = {}
+    for rel_, mod_ in core.mods.items():
+        for st in mod_.body:
+            if isinstance(st, ast.Assign) and len(st.targets) == 1 and isinstance(st.targets[0], ast.Name) and isinstance(st.value, ast.Constant):
+                consts.setdefault(st.targets[0].id, st.value.value)
+    def _is_year_section(e):
+        # the literal section name, or a module-level constant holding it (possibly reached as module.NAME)
+        if isinstance(e, ast.Constant):
+            return e.value == 'habutax'
+        nm = e.id if isinstance(e, ast.Name) else e.attr if isinstance(e, ast.Attribute) else None
+        return nm is not None and consts.get(nm) == 'habutax'
     extra = []
     for x in ast.walk(f.node):
         if isinstance(x, (ast.Assign, ast.AugAssign)):
             for t_ in (x.targets if isinstance(x, ast.Assign) else [x.target]):
-                if isinstance(t_, ast.Subscript) and isinstance(t_.value, ast.Name) and t_.value.id == sol and not (isinstance(t_.slice, ast.Constant) and t_.slice.value == 'habutax'):
+                if isinstance(t_, ast.Subscript) and isinstance(t_.value, ast.Name) and t_.value.id == sol and not _is_year_section(t_.slice):
                     extra.append(x)
         if isinstance(x, ast.Call) and isinstance(x.func, ast.Attribute) and isinstance(x.func.value, ast.Name) and x.func.value.id == sol \
                 and x.func.attr in ('update', 'read', 'read_file', 'read_dict', 'read_string', 'add_section', 'setdefault', 'remove_section', 'pop', 'clear', 'set', 'remove_option'):
